@@ -26,6 +26,8 @@ pub struct Player {
 
 #[derive(Clone, Debug)]
 pub struct ValveState {
+    /// id of the answer before the first split answer (each split answer gets the next id, 31 bits)
+    pub split_id_base: u32,
     /// the server answers A2S_INFO with the obsolete GoldSrc layout (header 'm')
     pub obsolete_info: bool,
     pub protocol: u8,
@@ -162,6 +164,13 @@ impl ValveState {
             edf,
             port: gen::u16_(t),
             steam_id: gen::u64_(t),
+            split_id_base: match t.draw(DATA, 6) {
+                0 => 7,
+                1 => 0x3fff_fffe,
+                2 => 0x7fff_fff0 + t.draw(DATA, 15) as u32,
+                3 => 0x4000_0000 + t.draw(DATA, 0x3fff_ffff) as u32,
+                _ => t.draw(DATA, 0x7fff_ffff) as u32,
+            },
             tv_port: gen::u16_(t),
             tv_name: s(t, 32),
             keywords: s(t, 120),
@@ -603,6 +612,7 @@ pub struct ValveServer {
 impl ValveServer {
     pub fn new(st: ValveState) -> Self {
         Self {
+            split_id: st.split_id_base,
             st,
             enc: [KindEnc::simple(), KindEnc::simple(), KindEnc::simple(), KindEnc::simple()],
             outcomes: [Vec::new(), Vec::new(), Vec::new(), Vec::new()],
@@ -616,7 +626,6 @@ impl ValveServer {
             echoed_wrong: 0,
             requests: Vec::new(),
             unknown_requests: 0,
-            split_id: 7,
             fixed_challenges: Vec::new(),
             fixed_frags: [None, None, None, None],
             compressed: [None, None, None, None],
